@@ -156,6 +156,11 @@ func (c16) Gen(r *sim.Rand, tier string, run uint64) *sim.Scenario {
 	// a second clone of the same original, alive at the same time, receives the same tail
 	// shifted by one byte and is then discarded: two emitters derived from one parent
 	sc.Cfg["twoclones"] = int64(r.Intn(3) / 2)
+	if sc.Cfg["capmode"] != 2 && r.Chance(1, 5) {
+		// the clone emits in place: the original's target is a window of a larger image and the
+		// clone is given the image from the original's first free byte on, past that window
+		sc.Cfg["inplace"] = 1
+	}
 	return sc
 }
 
@@ -293,6 +298,16 @@ func (c16) Exec(sc *sim.Scenario, env *sim.Env) *sim.Violation {
 		return true
 	}
 	aTarget := mk(acap)
+	inplace := sc.C("inplace") != 0 && !nilTargets
+	var big []byte
+	if inplace {
+		big = make([]byte, 8+acap+int(tailSize)+int(postSize)+64)
+		for j := range big {
+			big[j] = 0xEE
+		}
+		aTarget = big[8 : 8+acap]
+		st.Probe("clone_emits_in_place")
+	}
 	var aTargetAtClone []byte
 	a := asm.NewEmitter(aTarget, gentext)
 	d := asm.NewEmitter(mk(acap), gentext)
@@ -326,7 +341,11 @@ func (c16) Exec(sc *sim.Scenario, env *sim.Env) *sim.Violation {
 				return v
 			}
 			aTargetAtClone = append([]byte{}, aTarget...)
-			p, pv := sim.RecoverLib(func() { e = a.Clone(mk(int(tailSize) + 8)) })
+			cloneTarget := mk(int(tailSize) + 8)
+			if inplace {
+				cloneTarget = big[8+a.Len():]
+			}
+			p, pv := sim.RecoverLib(func() { e = a.Clone(cloneTarget) })
 			if p {
 				return &sim.Violation{Oracle: "clone_panic", Step: i, Msg: sim.PanicString(pv)}
 			}
@@ -373,7 +392,7 @@ func (c16) Exec(sc *sim.Scenario, env *sim.Env) *sim.Violation {
 			if dd := snapA.diff(now); dd != "" {
 				return &sim.Violation{Oracle: "clone_not_isolated", Step: i, Msg: "before Append the original changed as a side effect of operations on the clone: " + dd}
 			}
-			if string(aTarget) != string(aTargetAtClone) {
+			if !inplace && string(aTarget) != string(aTargetAtClone) {
 				return &sim.Violation{Oracle: "clone_not_isolated", Step: i, Msg: fmt.Sprintf("before Append the original's target buffer was written (offset %d, beyond its Len) by operations on the clone", firstDiff(aTarget, aTargetAtClone))}
 			}
 			st.Probe("isolation_observed")
